@@ -196,12 +196,14 @@ def cells_with(m):
     return vc, ec, fc
 
 
-def check_dofs(label, m):
+def check_dofs(label, m, accept=None):
     import skfem as fem
     fails = []
     vc, ec, fc = cells_with(m)
     nt = m.t.shape[1]
     for e in elements_for(m):
+        if accept is not None and not accept(e):
+            continue
         name = type(e).__name__ + ("(%s)" % ",".join(type(x).__name__ for x in e.elems) if hasattr(e, "elems") else "")
         try:
             basis = fem.CellBasis(m, e)
@@ -273,6 +275,26 @@ def check_dofs(label, m):
                         break
         except Exception as ex:
             fails.append("%s: assembly raised %s: %s" % (name, type(ex).__name__, ex))
+    if accept is None:
+        # COMPOSITE numbering: the flat CompositeBasis of two / three / four bases numbers block k after all DOFs of the blocks before it, gap-free
+        try:
+            from skfem.assembly.basis.composite_basis import CompositeBasis
+            es = [e for e in elements_for(m) if not hasattr(e, "elems") and not type(e).__name__.startswith("ElementVector")][:4]
+            for n in (2, 3, 4):
+                if not es:
+                    break
+                pick = [es[k % len(es)] for k in range(n)]
+                bs = [fem.CellBasis(m, e, intorder=2) for e in pick]
+                cb = CompositeBasis(*bs)
+                offs = np.cumsum([0] + [b.N for b in bs])
+                want = np.vstack([b.element_dofs + o for b, o in zip(bs, offs)])
+                ed = cb.element_dofs
+                if cb.N != offs[-1] or ed.shape != want.shape or not np.array_equal(ed, want) or np.unique(ed).tolist() != list(range(int(offs[-1]))):
+                    fails.append("CompositeBasis(%s): element_dofs are not the blocks' numbers shifted by the sizes of all preceding blocks (N = %s, expected %d, %d distinct numbers)"
+                                 % (", ".join(type(e).__name__ for e in pick), cb.N, offs[-1], len(np.unique(ed))))
+                    break
+        except Exception as ex:
+            fails.append("CompositeBasis: raised %s: %s" % (type(ex).__name__, str(ex)[:120]))
     return fails
 
 
@@ -373,7 +395,12 @@ def check_history(label, m, rng):
     for vname, m0 in variants:
         for oname, op in ops:
             try:
-                q = type(m0)(m0.p.copy(), m0.t.copy())
+                if oname == "oriented":
+                    tf = m0.t.copy()
+                    tf[:2, ::2] = tf[:2, ::2][::-1]                       # every other cell negatively oriented, so that oriented() has work to do
+                    q = type(m0)(m0.p.copy(), tf, sort_t=False)
+                else:
+                    q = type(m0)(m0.p.copy(), m0.t.copy())
             except Exception:
                 continue
             _warm(q)
@@ -435,10 +462,66 @@ def run_periodic(payload):
                 bound="periodic tensor meshes of segments, triangles, quadrilaterals, hexahedra (4-6 points per direction) for EVERY subset of periodic directions x {P1/Q1, P2/Q2}")
 
 
+def derived_for_dofs(m, rng):
+    """meshes produced by library operations from a mesh whose connectivity caches are warm (simplices: with half of the cells negatively oriented)"""
+    kind = type(m).__name__
+    t = m.t.copy()
+    tf = t.copy()
+    if kind.startswith(("MeshTri1", "MeshTet1")):
+        flip = rng.rand(t.shape[1]) < .5
+        flip[0] = True
+        tf[:2, flip] = tf[:2, flip][::-1]
+    ops = [("restrict", lambda q: q.restrict(np.arange(max(1, q.t.shape[1] // 2)))), ("refined", lambda q: q.refined(1)),
+           ("translated", lambda q: q.translated(tuple([.25] * q.p.shape[0]))), ("with_boundaries", lambda q: q.with_boundaries({"b": q.boundary_facets()[:1]}))]
+    if kind.startswith(("MeshTri1", "MeshTet1")):
+        ops.insert(0, ("oriented", lambda q: q.oriented()))
+    for oname, op in ops:
+        try:
+            # oriented() is given unsorted cells, half of them negatively oriented (so that it has work to do); the other operations a regular mesh
+            q = type(m)(m.p.copy(), tf.copy(), sort_t=False) if oname == "oriented" else type(m)(m.p.copy(), t.copy())
+        except Exception:
+            continue
+        _warm(q)
+        try:
+            yield oname, op(q)
+        except NotImplementedError:
+            continue
+
+
+def run_dofs_derived(payload):
+    tier, seed = payload.get("tier", "quick"), int(payload.get("seed", 0))
+    rng = np.random.RandomState(seed + 11)
+    cases, failures, samples = 0, [], []
+    for label, m in Z.zoo(tier, seed, variants=0):
+        if payload.get("only") and label != payload["only"]:
+            continue
+        if m.t.shape[1] > 60:
+            continue
+        for oname, r in derived_for_dofs(m, rng):
+            cases += 1
+            try:
+                # on the unsorted result of oriented() only elements with at most one DOF per edge / facet apply (several DOFs per entity need sorted cells)
+                acc = (lambda e: getattr(e, "facet_dofs", 0) <= 1 and getattr(e, "edge_dofs", 0) <= 1 and not hasattr(e, "elems")) if oname == "oriented" else None
+                fl = check_connectivity(label, r)[:1] + check_dofs(label, r, acc)
+            except Exception as e:
+                import traceback
+                fl = ["exception %s: %s | %s" % (type(e).__name__, e, traceback.format_exc()[-300:])]
+            if len(samples) < 3:
+                samples.append("%s>%s" % (label, oname))
+            for f in fl[:2]:
+                failures.append(dict(input=dict(mesh=label, operation=oname + " of the mesh with warm connectivity caches"), observed=f,
+                                     replay=dict(kind="mesh_case", what="dofs-derived", only=label, seed=seed, tier=tier)))
+    return dict(cases=cases, failures=failures[:20], samples=samples, nontrivial=cases,
+                bound="every base mesh of the zoo with at most 60 cells (simplices: half of the cells negatively oriented, unsorted), connectivity caches warm, then "
+                      "{oriented, restrict, refined, translated, with_boundaries}: DOFS clauses on the result x element list")
+
+
 def run(payload):
     what = payload.get("what", "connectivity")
     if what == "large":
         return run_large(payload)
+    if what == "dofs-derived":
+        return run_dofs_derived(payload)
     if what == "periodic":
         return run_periodic(payload)
     if what == "history":
